@@ -102,7 +102,7 @@ FAMILY_PLAN = [
 ]
 
 
-def program_set(tier, seed, loop_else=False):
+def program_set(tier, seed, loop_else=False, globfns=True):
     """The program batch of the MiniPy family.
 
     Exhaustive: every skeleton of spec/MiniPyGen.tla with <= 4 statements (all productions).  Deeper, focused
@@ -145,8 +145,11 @@ def program_set(tier, seed, loop_else=False):
     # nested functions that read and rebind the enclosing function's variables, defined and called in and around compound statements
     progs += mprun.random_programs(300 if quick else 1500, seed + 17, lo=2, hi=4, maxdepth=3, loop_else=loop_else, def_rate=0.12,
                                    call_rate=0.25, closure_bias=True, with_=False, dele=False, hnames=False)
+    if globfns:     # module-level functions called (and converted recursively, or run unconverted) from the function under test
+        progs += mprun.random_programs(250 if quick else 1500, seed + 19, lo=2, hi=4, maxdepth=3, loop_else=loop_else, globfns=2,
+                                       call_rate=0.3)
     # very large random programs add cost, not shapes
-    progs = [p for p in progs if len(p['nodes']) <= 45]
+    progs = [p for p in progs if len(p['nodes']) <= (60 if any(f['parent'] == 0 for f in p['fns'][1:]) else 45)]
     return progs, tlcs
 
 
